@@ -12,12 +12,41 @@ static bool nontrivial(const zm::Model& m, int64_t t) {
   return !m.changes((i128)t - 86400, (i128)t + 86400).empty();
 }
 
+// The templated overload lookup(time_point<D>) with a sub-second D: the instant t + f (0 < f < 1 s) lies inside the
+// second t, so it must be answered exactly like t (also before 1970, where truncation and floor differ).
+template <typename D>
+static bool subsecond_as(const cctz::time_zone& tz, int64_t t, int64_t frac, const char* dname, std::string* why) {
+  const int64_t per = D::period::den / D::period::num;
+  if (t > INT64_MAX / per - 2 || t < INT64_MIN / per + 2) return true;  // not representable in D
+  const auto a = tz.lookup(cctz::time_point<D>(D(t * per + frac)));
+  const auto b = tz.lookup(zp::tp(t));
+  EV->eval(); EV->cls("subsecond_lookup");
+  if (a.cs != b.cs || a.offset != b.offset || a.is_dst != b.is_dst || std::string(a.abbr) != b.abbr) {
+    *why = std::string("lookup(time_point<") + dname + ">) at " + vf::i64_str(t) + " s + " + vf::i64_str(frac) + "/" + vf::i64_str(per) +
+           " s differs from lookup(" + vf::i64_str(t) + " s): " + refcal::str(zp::civ(a.cs)) + " " + a.abbr + " vs " + refcal::str(zp::civ(b.cs)) + " " + b.abbr;
+    return false;
+  }
+  return true;
+}
+static bool check_subsecond(const cctz::time_zone& tz, int64_t t, std::string* why) {
+  const uint64_t hsh = vf::mix((uint64_t)t, 0xc01c01ULL);
+  switch (hsh % 3) {
+    case 0: { const int64_t f[] = {1, 500, 999}; return subsecond_as<std::chrono::milliseconds>(tz, t, f[(hsh >> 8) % 3], "milliseconds", why); }
+    case 1: { const int64_t f[] = {1, 500000, 999999}; return subsecond_as<std::chrono::microseconds>(tz, t, f[(hsh >> 8) % 3], "microseconds", why); }
+    default: { const int64_t f[] = {1, 500000000, 999999999}; return subsecond_as<std::chrono::nanoseconds>(tz, t, f[(hsh >> 8) % 3], "nanoseconds", why); }
+  }
+}
+
 static bool check_zone(const zp::Zone& z, zp::Handle& h, bool in_rc, bool full, vf::Case* fc, std::string* why) {
   fc->set("sweep", full ? "full" : "thin");  // lets replay re-create the call history of the sweep
   if (!h.ok) { *why = "well-formed TZif file (" + zc::zone_class(z.model) + ") failed to load"; fc->set("load", "failed"); return false; }
   const zp::Anchors an = zp::anchors_for(z.model, full);
   const std::vector<int64_t> deltas = zp::deltas_for(z.model);
   const uint64_t zh = vf::fnv(z.bytes);
+  // a public handle for the templated overload (shipped files are also opened by path; the public cache never frees)
+  cctz::time_zone pub; bool have_pub = false;
+  if (h.pub) { pub = h.tz; have_pub = true; }
+  else if (z.kind == "shipped") have_pub = cctz::load_time_zone(z.load_name, &pub);
   int64_t cur_t = 0;
   vf::CurrentScope cur([&]() { vf::Case c; c.set("zone", z.label); c.set("t", cur_t); return c; });
   for (size_t i = 0; i < an.instants.size(); ++i) {
@@ -28,6 +57,7 @@ static bool check_zone(const zp::Zone& z, zp::Handle& h, bool in_rc, bool full, 
       cur_t = t;
       EV->eval();
       if (!check_instant(z, h, t, why)) { fc->set("t", t); fc->set("anchor", an.tags[i]); return false; }
+      if (have_pub && d >= -1 && d <= 1 && !check_subsecond(pub, t, why)) { fc->set("t", t); fc->set("anchor", an.tags[i]); fc->set("subsecond", "1"); return false; }
       if (d >= -86400 && d <= 86400) { EV->nt(vf::mix(zh, (uint64_t)t)); }
       if ((d == 0) && EV->want_sample(an.tags[i])) {
         const auto al = h.lookup(t);
@@ -63,6 +93,7 @@ static bool replay(const vf::Case& c, std::string* why) {
   zp::Handle h = zp::open_public(z.load_name);
   if (!h.ok) { *why = "well-formed TZif file failed to load"; return false; }
   if (c.has("t") && !check_instant(z, h, (int64_t)c.num("t"), why)) return false;
+  if (c.has("t") && !check_subsecond(h.tz, (int64_t)c.num("t"), why)) return false;
   if (c.has("t") && !c.has("sweep")) return true;
   // the single probe passes in a fresh process: re-run the whole deterministic sweep (history-dependent failures)
   vf::Case fc;
@@ -76,7 +107,7 @@ static void run(const vf::Args& a, vf::Evidence& ev, vf::Reporter& rep) {
             "instants: anchor + delta, anchors = every recorded transition, rule transitions of every year of the "
             "403-year table around the seam, their 400-year images up to the last representable year, +-2^59, "
             "+-2^31, int64 min/max; deltas = 0, +-1, +-2, +-each offset(+-1), +-1h, +-1d; plus generated uniform "
-            "instants. Non-trivial = within one day of a change point or outside the recorded range; distinct by (zone bytes, t).";
+            "instants; at delta 0/+-1 also the templated lookup(time_point<ms/us/ns>) inside that second. Non-trivial = within one day of a change point or outside the recorded range; distinct by (zone bytes, t).";
   zc::Ctx c{&a, &ev, &rep};
   zc::ZoneProp p;
   p.check_zone = check_zone;
